@@ -483,6 +483,7 @@ func words(ps []Piece) [][]Piece {
 var (
 	reDollarAtAltEnd = regexp.MustCompile(`\$[A-Za-z_][A-Za-z0-9_]*[,}]`)
 	reNameStart      = regexp.MustCompile(`^[A-Za-z0-9_]`)
+	reDollarNameEnd  = regexp.MustCompile(`\$[A-Za-z_][A-Za-z0-9_]*$`)
 	reEmptyAlt       = regexp.MustCompile(`\{,|,,|,\}`)
 )
 
@@ -578,7 +579,12 @@ func exclusion(s *Sub, in info) (expand, fields string) {
 			if i > 0 && w[i-1].T == "var" {
 				braceName = "C25-brace-after-dollar-name"
 			}
-			if reDollarAtAltEnd.MatchString(p.S) && i+1 < len(w) && reNameStart.MatchString(text(w[i+1:i+2])) {
+			if reDollarNameEnd.MatchString(text(w[:i])) {
+				// $v followed by name characters and then the braces: the
+				// name bash reads includes the brace alternatives too
+				braceName = "C25-brace-after-dollar-name"
+			}
+			if reDollarAtAltEnd.MatchString(p.S) && i+1 < len(w) && (w[i+1].T == "brace" || reNameStart.MatchString(text(w[i+1:i+2]))) {
 				braceName = "C25-brace-after-dollar-name"
 			}
 			// an alternative that expands to nothing, or to text ending
